@@ -15,7 +15,7 @@ Leg R  every configuration is built with the real InsErrorModel: transform_to_ou
 import json, math
 from concurrent.futures import ThreadPoolExecutor
 import numpy as np
-from . import tlc, filt, pool
+from . import tlc, filt, pool, exc
 from .check_c06 import domain_module, ANGLE, LLA, VEL, RPH
 
 INV = ["OutputIsDerivative", "JOrthogonal", "LeftInverse", "Rows2DZero", "Dims"]
@@ -26,7 +26,8 @@ OUT = ['north', 'east', 'down', 'VN', 'VE', 'VD', 'roll', 'pitch', 'heading']
 def _pva(m, cfg, perm=False):
     pd = m["pd"]
     k = cfg["k"]
-    vals = dict(lat=(50.0, -33.0, 0.0, 71.5, 84.9, -85.0)[k % 6],       # the property's domain reaches |lat| = 85 lon=(30.0, -120.0, 179.5)[k % 3], alt=(100.0, -50.0, 9000.0)[k % 3],
+    # (the property's domain reaches |lat| = 85)
+    vals = dict(lat=(50.0, -33.0, 0.0, 71.5, 84.9, -85.0)[k % 6], lon=(30.0, -120.0, 179.5)[k % 3], alt=(100.0, -50.0, 9000.0)[k % 3],
                 VN=float(cfg["vel"][0]), VE=float(cfg["vel"][1]), VD=float(cfg["vel"][2]),
                 roll=ANGLE[cfg["rq"]], pitch=0.0, heading=ANGLE[cfg["hq"]])
     labels = LLA + VEL + RPH
@@ -192,7 +193,9 @@ def general_predicates(m, seed, n):
                     probs.append("general: perturb_pva then correct_pva restores %s only to first order (residuals %.3g, %.3g at scales 1, 1/4; %s)" % (OUT[i], rs[0][i], rs[1][i], tag))
                     break
         except Exception as e:
-            probs.append("general: %s raised %s: %s" % (tag, type(e).__name__, str(e)[:100]))
+            if not exc.entered_pyins(e):
+                raise
+            probs.append("general: %s: the library raised %s" % (tag, exc.describe(e)))
     return probs, worst
 
 
@@ -202,8 +205,9 @@ def replay_configs(m, chunk):
         try:
             probs = _one(m, cfg)
         except Exception as e:
-            import traceback
-            probs = ["exception %s: %s | %s" % (type(e).__name__, e, traceback.format_exc().splitlines()[-3:])]
+            if not exc.entered_pyins(e):
+                raise                        # a defect of the harness: machinery error, never a violation
+            probs = ["the library raised " + exc.describe(e)]
         if probs:
             out.append((cfg, probs))
     return out
